@@ -261,6 +261,9 @@ def jobs(tier, seed):
     J = []
     for fid in corpus.ids():
         J.append(dict(kind="font", name=fid, fid=fid, seed=subseed(seed, fid), n=(8 if tier == "thorough" else 1)))
+        if fid.startswith("gen:") and corpus.gen_spec(fid).get("weird_names") and "glyf" in corpus.entry(fid)["tables"]:
+            # glyph names that collide as file names: always also dumped one file per glyph
+            J.append(dict(kind="font", name=fid + ":splitGlyphs", fid=fid, seed=subseed(seed, fid, "split"), n=1, force={"splitGlyphs": True}))
     return J
 
 
@@ -271,6 +274,8 @@ def run_job(job):
     cases = [dict(fid=job["fid"], opts={})]
     for _ in range(job["n"]):
         cases.append(dict(fid=job["fid"], opts=option_tuple(rnd, e["tables"])))
+    if job.get("force"):
+        cases = [dict(fid=job["fid"], opts=dict(job["force"]))] + [dict(c, opts=dict({k: v for k, v in c["opts"].items() if k not in ("tables", "skipTables", "cli")}, **job["force"])) for c in cases[1:]]
     # bitmap fonts: make sure every bitmap format is used
     if {"CBDT", "EBDT", "sbix"} & set(e["tables"]):
         for fmt in ("raw", "row", "bitwise", "extfile"):
